@@ -25,6 +25,14 @@ META = {
 }
 
 TRIM_OK = re.compile(r'core::str::<impl str>::trim_end$')
+TRIM_EQUIV = re.compile(r'core::str::<impl str>::trim_end_matches::<.*\{(core|std)::char::methods::<impl char>::is_whitespace\}>$')
+
+
+def _trims_unicode_whitespace(t):
+    """str::trim_end, or the equivalent trim_end_matches(char::is_whitespace) (same Unicode White_Space predicate)"""
+    return bool(TRIM_OK.search(callee_path(t) or '') or TRIM_EQUIV.search(callee_str(t) or ''))
+
+
 UNWRAPPERS = re.compile(r'std::result::Result::<T, E>::(unwrap_or_else|unwrap_or|unwrap_or_default|unwrap|expect)$')
 
 
@@ -311,7 +319,7 @@ def r2_postprocessor_shape(w):
         cons = {'fn': name, 'call': p, 'bb': bi}
         if p == 'std::string::String::push_str' and bi in blocks:
             ao = [strip_casts(x) for x in pv.origins_operand(t['args'][1])]
-            good = len(ao) == 1 and ao[0][0] == 'call' and TRIM_OK.search(callee_path(pv.call_term(ao[0])) or '')
+            good = len(ao) == 1 and ao[0][0] == 'call' and _trims_unicode_whitespace(pv.call_term(ao[0]))
             if good:
                 src = pv.origins_operand(pv.call_term(ao[0])['args'][0])
                 good = all(o[0] == 'call' and o[1][0] == header and o[2] == (('v', 1), ('f', 0)) for o in src)
